@@ -348,7 +348,9 @@ def merge_values(R, rep):
                 okp = all(isinstance(p, tuple) and p[0] == "*" and len(p[1]) == 2 for p in prods)
                 # divisor is the (already updated) merged amount reference = same place that received +=
                 den = val[2]
-                okd = isinstance(den, tuple) and ("amount" in show(den))
+                # divisor: the accumulated (current) amount, not the incoming fill's
+                okd = isinstance(den, tuple) and show(den).endswith(".amount") and "next(" not in show(den) and \
+                    any(isinstance(x, tuple) and x and x[0] == "var" for x in subterms(den))
                 rep.ob("R8", f"merge:price@{c.loc(s['sp']).rsplit(':', 2)[-2]}", okp and okd, "merged price = (a₁p₁ + a₂p₂) ÷ merged quantity" if okp and okd else
                        f"merged price is {show(val)[:90]}", c.loc(s["sp"]), key="R8:merge:price")
     if n < 2:
